@@ -43,6 +43,13 @@ impl<K, V> IndexMap<K, V> {
     pub fn get(&self, k: &K) -> (r: Option<&V>)
         ensures r is Some <==> self.has(*k), r is Some ==> *r->Some_0 == self.entries()[im_idx(self.entries(), *k)].1,
     { unimplemented!() }
+    // iter(): the entries in insertion order; `let (k, v) = element` binds k: &K, v: &V exactly as with the real crate's (&K, &V)
+    #[verifier::external_body]
+    pub fn iter(&self) -> (it: std::slice::Iter<'_, (K, V)>)
+        ensures it.obeys_prophetic_iter_laws(), it.decrease() is Some,
+            it.remaining().len() == self.entries().len(),
+            forall|j: int| 0 <= j < it.remaining().len() ==> *(#[trigger] it.remaining()[j]) == self.entries()[j],
+    { unimplemented!() }
     #[verifier::external_body]
     pub fn clear(&mut self)
         ensures final(self).entries().len() == 0,
@@ -89,3 +96,5 @@ impl<K, V> IntoIterator for IndexMap<K, V> {
 }
 // the data-structure invariant of IndexMap: keys are pairwise distinct
 pub broadcast axiom fn axiom_im_distinct<K, V>(m: IndexMap<K, V>) ensures #[trigger] m.distinct();
+// an IndexMap is a finite tree over its entries: recursion through the entries terminates (as vstd's axiom_vec_decreases_to_view)
+pub broadcast axiom fn axiom_im_decreases<K, V>(m: IndexMap<K, V>) ensures #[trigger] (decreases_to!(m => m.entries()));
